@@ -44,6 +44,20 @@ fn hostile(n: u32) -> Vec<u64> {
 }
 
 pub fn suite_c16(ctx: &mut Ctx) {
+    // totality sweeps (the same in both profiles): a seeded coset of all P32E2 patterns through every unary operation
+    // of the sweep table, and alignment-directed operand tuples through the arithmetic; a panic (or a result that the
+    // second route does not share) selects the input, which is then logged like any other call
+    {
+        let l2 = ctx.q(25, 30) as u32;
+        let all: Vec<&'static str> = vec!["to_f32", "to_f64", "to_i32", "to_u32", "to_i64", "to_u64", "round", "floor", "ceil", "trunc", "fract",
+            "sqrt", "to_p16", "to_p8", "recip", "abs", "neg", "f64_roundtrip"];
+        crate::screen::screen_unary32(ctx, &crate::fixed::P32T, &all, l2);
+        let k = ctx.q(1 << 23, 1 << 27);
+        for ty in [&crate::fixed::P16T, &crate::fixed::P32T] {
+            crate::screen::screen_fixed(ctx, ty, &crate::screen::ARITH, k);
+            crate::screen::screen_fixed(ctx, ty, &crate::screen::FUSED, k);
+        }
+    }
     let hostile_floats64: Vec<u64> = vec![0, 1 << 63, 0x7ff0_0000_0000_0000, 0xfff0_0000_0000_0000, 0x7ff8_0000_0000_0000, 0x7ff0_0000_0000_0001, u64::MAX,
         1, 0x000f_ffff_ffff_ffff, 0x0010_0000_0000_0000, 0x7fef_ffff_ffff_ffff, 0xffef_ffff_ffff_ffff, 0x3ff0_0000_0000_0000, 0x4770_0000_0000_0000, 0x3870_0000_0000_0000];
     let hostile_floats32: Vec<u64> = vec![0, 0x8000_0000, 0x7f80_0000, 0xff80_0000, 0x7fc0_0000, 0x7f80_0001, 0xffff_ffff, 1, 0x007f_ffff, 0x0080_0000,
